@@ -128,6 +128,20 @@ Theorem import_again_is_noop : forall fuel pf fs p l1 l2 t,
 Proof. exact load_again. Qed.
 Print Assumptions import_again_is_noop.
 
+
+(* REFUTED on the faithful model (finding C18-same-file-two-module-paths): "once" is per module PATH, not per
+   file - a file that the search path also finds under a second module path is processed twice (its
+   initialisers run again, an exported global is bound anew) *)
+Theorem same_file_loaded_once_refuted : exists fs t,
+  resolve fs "m0" = resolve fs "modules.m0" /\ resolve fs "m0" <> None /\
+  load 3 3 fs ["m0"; "modules.m0"] empty_tables = Ok t /\
+  loaded t = ["modules.m0"; "m0"] /\ List.length (filter (fun b => String.eqb (fst b) "g") (vars t)) = 2.
+Proof.
+  exists [("modules/m0.cb", [SDecl true (DVar "g" false (Some (ELit 5)))])]. eexists. vm_compute.
+  repeat split. discriminate.
+Qed.
+Print Assumptions same_file_loaded_once_refuted.
+
 (* the same for a module that was loaded through another module (a diamond, or a program importing
    what one of its modules imports): it is loaded once, the later import changes nothing *)
 Theorem loaded_module_changes_nothing : forall fuel pf fs t p t',
